@@ -146,7 +146,7 @@ class ConnSession:
         spec = self.spec
         self.conn = YC.YncaConnection("virtual://port")
         for cbid in spec.get("pre_register", []):
-            self.conn.register_message_callback(self._msg_cb(cbid))
+            self.do(["reg", cbid], ctx="U0")
         ev = api.emit("call", op=["connect"], ctx="U")
         exc = None
         try:
